@@ -77,6 +77,10 @@ ssize_t x_h_div1(ssize_t x, ssize_t dash_length)
 ssize_t x_v_div1(ssize_t y, ssize_t dash_length)
 { __CPROVER_assert(dash_length != 0 && COORD_OK(y) && COORD_OK(dash_length), "dash selector: no division by zero / overflow"); return nondet_C07_ssize(); }
 
+/* ---- the outlined slope of draw_line: any double ---- */
+double nondet_C07_double(void);
+double x_line_slope(ssize_t dy, ssize_t dx) { return nondet_C07_double(); }
+
 /* ---- the outlined blend expressions ---- */
 #define MBLH8(name, AL, C, D, gc, gd, gbo) uint64_t name(P8) { uint64_t ret = nondet_C07_u64(); \
   __CPROVER_assume((g_tup_ok && (AL) == g_t_al && (C) == gc && (D) == gd) ==> ret == gbo); return ret; }
